@@ -85,7 +85,10 @@ def add_reference(rng, doc, names, where, attr, target):
         nm = where.split(':', 1)[1]
         for s in doc.automaticstyles.childNodes:
             if s.getAttrNS('urn:oasis:names:tc:opendocument:xmlns:style:1.0', 'name') == nm:
-                if rng.random() < 0.5: s.setAttrNS(attr[0], attr[1], target)
+                mode = where.split(':', 1)[0]
+                if mode == 'autoattr' or (mode == 'auto' and rng.random() < 0.5): s.setAttrNS(attr[0], attr[1], target)
+                elif mode == 'autodeep':                      # on an element inside an element inside the style (style:map, tab stops, drop caps sit there)
+                    w = Element(qname=(X.TEXTNS, 'span'), check_grammar=False); w.addElement(e, check_grammar=False); s.addElement(w, check_grammar=False)
                 else: s.addElement(e, check_grammar=False)
 
 def refs_in(tree, refattrs):
